@@ -36,6 +36,8 @@ fn columns(e: &Expr, out: &mut Vec<Vec<String>>) {
 
 pub struct Lineage<'a> {
     pub protected: Vec<String>,
+    /// paths of the protected tables: a node reading such a path is protected whatever its name
+    pub protected_paths: Vec<Vec<String>>,
     memo: HashMap<*const Relation, Lin>,
     /// shapes the analysis does not classify (conservatively treated as raw)
     pub unknown: std::cell::RefCell<Vec<String>>,
@@ -44,7 +46,10 @@ pub struct Lineage<'a> {
 
 impl<'a> Lineage<'a> {
     pub fn new(protected: Vec<String>) -> Self {
-        Lineage { protected, memo: HashMap::new(), unknown: Default::default(), _p: Default::default() }
+        Lineage { protected, protected_paths: vec![], memo: HashMap::new(), unknown: Default::default(), _p: Default::default() }
+    }
+    pub fn new_with_paths(protected: Vec<String>, protected_paths: Vec<Vec<String>>) -> Self {
+        Lineage { protected, protected_paths, memo: HashMap::new(), unknown: Default::default(), _p: Default::default() }
     }
 
     fn expr_flags(&self, e: &Expr, input: &Lin) -> (bool, bool) {
@@ -83,7 +88,8 @@ impl<'a> Lineage<'a> {
         let n = names.len();
         let lin = match r {
             Relation::Table(t) => {
-                let prot = self.protected.iter().any(|p| p == t.name());
+                let path: Vec<String> = t.path().iter().map(|s| s.to_string()).collect();
+                let prot = self.protected.iter().any(|p| p == t.name()) || self.protected_paths.iter().any(|p| *p == path);
                 Lin { raw: vec![prot; n], noised: vec![false; n], supp_raw: prot, mult_raw: prot, names }
             }
             Relation::Values(_) => Lin { raw: vec![false; n], noised: vec![false; n], supp_raw: false, mult_raw: false, names },
